@@ -1,5 +1,6 @@
 import Xo.Model.RefGraphX
 import Xo.Lemmas.RefGraphOps
+import Xo.Props.C12
 /-! Copy construction into another buffer (`Xo/Model/RefGraphX.lean`): the destination keeps its invariant and all it held, the
 copy is a tree of NEW nodes, and it is indistinguishable from the source by reads along paths of any length (`Sim`). -/
 namespace RG
@@ -645,5 +646,94 @@ theorem history2_inv {u : Univ} (hu : UWF u) (fuel : Nat) : ∀ (ops : List Op2)
     simp only [List.foldl_cons] at hca hcb ⊢
     obtain ⟨i1, i2⟩ := step2_inv hu ha hb op (Nat.lt_of_le_of_lt h1.1 hca) (Nat.lt_of_le_of_lt h1.2 hcb)
     exact history2_inv hu fuel ops (step2 u fuel p op) i1 i2 hca hcb
+
+/-! ### the copy of an acyclic source ends: `none` only comes from cycles (or too little fuel) -/
+
+/-- what totality needs of the destination: the allocator invariant and a usable grow step -/
+def AInv (d : St) : Prop := Alloc.Inv d.b.a (regions d) ∧ GrowOK d.b.a
+
+theorem newObj_total {u : Univ} {d : St} (hd : AInv d) {c : Nat} {cl : Cls} (hcl : u[c]? = some cl) (vs : List Nat) :
+    ∃ d1 o, newObj u d c vs = (d1, some o) ∧ AInv d1 := by
+  have ht := C12_total_buf d.b (regions d) (csize cl) true hd.1 hd.2
+  cases hal : d.b.allocate (csize cl) true with
+  | none => rw [hal] at ht; simp at ht
+  | some r =>
+    obtain ⟨o, b'⟩ := r
+    have ha : allocate d.b.a (csize cl) true = some (o, b'.a) := by
+      have := Buf.allocF_a (csize cl + alignOf d.b.a true + 1) d.b (csize cl) (alignOf d.b.a true)
+      unfold Buf.allocate at hal
+      rw [hal] at this
+      exact this.symm
+    obtain ⟨_, _, _, _, c5⟩ := C04_alloc d.b.a (regions d) (csize cl) true o b'.a hd.1 ha
+    have hg : b'.a.growStep = d.b.a.growStep := by
+      unfold allocate at ha
+      exact (allocF_fields _ _ _ _ _ _ ha).2
+    refine ⟨_, o, by unfold newObj; rw [hcl]; simp only; rw [hal], ?_, ?_⟩
+    · simpa [regions] using c5
+    · unfold GrowOK at *
+      simp only
+      rw [hg]; exact hd.2
+
+theorem wr_ainv {d : St} (hd : AInv d) (x : Nat) (bs : List UInt8) : AInv (wr d x bs) := hd
+
+def RecTotal (u : Univ) (src : St) (n : Nat) (rec : St → Nat → Nat → Option (St × Nat)) : Prop :=
+  ∀ d t c, AInv d → Acyc u src n t c → ∃ d1 t', rec d t c = some (d1, t') ∧ AInv d1
+
+theorem xchildren_total {u : Univ} {src : St} {n : Nat} {rec : St → Nat → Nat → Option (St × Nat)} (hrec : RecTotal u src n rec) :
+    ∀ (r : Cls) (sa : Nat) (d : St), AInv d →
+    (∀ (j : Nat) (fk : FK), r[j]? = some fk →
+      match fk with
+      | .scal => True
+      | .ref c' => ∀ t, deref src.b.mem (sa + foff r j) = some t → Acyc u src n t c'
+      | .uref cs => ∀ t c', deref src.b.mem (sa + foff r j) = some t → refClass src (.uref cs) (sa + foff r j) = some c' →
+          Acyc u src n t c') →
+    ∃ d' l, xchildren rec src r sa d = some (d', l) ∧ AInv d'
+ | [], _, d, hd, _ => ⟨d, [], rfl, hd⟩
+ | f :: r, sa, d, hd, hf => by
+    have h0 := hf 0 f rfl
+    simp only [foff, Nat.add_zero] at h0
+    have hstep : ∃ d1 x, xchild rec src f sa d = some (d1, x) ∧ AInv d1 := by
+      cases f with
+      | scal => exact ⟨d, none, rfl, hd⟩
+      | ref c' =>
+        simp only [xchild]
+        cases hdr : deref src.b.mem sa with
+        | none => exact ⟨d, none, rfl, hd⟩
+        | some t =>
+          obtain ⟨d1, t', h1, h2⟩ := hrec d t c' hd (h0 t hdr)
+          exact ⟨d1, some t', by simp only [h1], h2⟩
+      | uref cs =>
+        simp only [xchild]
+        cases hdr : deref src.b.mem sa with
+        | none => exact ⟨d, none, rfl, hd⟩
+        | some t =>
+          cases hrc : refClass src (.uref cs) sa with
+          | none => exact ⟨d, none, rfl, hd⟩
+          | some c' =>
+            obtain ⟨d1, t', h1, h2⟩ := hrec d t c' hd (h0 t c' hdr hrc)
+            exact ⟨d1, some t', by simp only [h1], h2⟩
+    obtain ⟨d1, x, hx, hd1⟩ := hstep
+    have hf' : ∀ (j : Nat) (fk : FK), r[j]? = some fk →
+        match fk with
+        | .scal => True
+        | .ref c' => ∀ t, deref src.b.mem (sa + f.size + foff r j) = some t → Acyc u src n t c'
+        | .uref cs => ∀ t c', deref src.b.mem (sa + f.size + foff r j) = some t →
+            refClass src (.uref cs) (sa + f.size + foff r j) = some c' → Acyc u src n t c' := by
+      intro j fk hj
+      have := hf (j + 1) fk (by simpa using hj)
+      rw [foff_cons_succ, ← Nat.add_assoc] at this
+      exact this
+    obtain ⟨d', l, hl, hd'⟩ := xchildren_total hrec r (sa + f.size) d1 hd1 hf'
+    exact ⟨d', x :: l, by simp only [xchildren, hx, hl], hd'⟩
+
+/-- **an acyclic source is always copied**: if every chain of references from the node has fewer than `n` links, fuel `n` is enough,
+whatever the destination's allocator state (grow step not 0) - the `none` of `xcopy` never hides anything else -/
+theorem xcopy_total (u : Univ) (src : St) : ∀ n, RecTotal u src n (xcopy u src n)
+ | 0 => fun _ _ _ _ h => by simp [Acyc] at h
+ | n + 1 => fun d a c hd hac => by
+    obtain ⟨cl, hcl, hfs⟩ := hac
+    obtain ⟨d1, o, hn, hd1⟩ := newObj_total hd hcl []
+    obtain ⟨d2, ch, hch, hd2⟩ := xchildren_total (xcopy_total u src n) cl a d1 hd1 hfs
+    exact ⟨wr d2 o (xbytes src cl a o ch), o, by simp only [xcopy, hcl, hn, hch], wr_ainv hd2 _ _⟩
 
 end RG
